@@ -8,7 +8,7 @@ P = {
  "C01": (True, "enum", "exploration",
    "bounded-exhaustive enumeration of token/argument/expression/structure sequences, nestings and single/double character edits, in 3 parser configurations, with a panic/hang oracle and a one-sided structural rejection oracle",
    "Every input of the stated alphabets and lengths is parsed in every configuration: the call must return, an Err must carry a message, and inputs an independent structural checker marks as definitely outside the language must be rejected. Exhaustive within the bounds printed in the evidence; the right level because the property is a totality statement over inputs and every known defect has a witness of <= 3 tokens.",
-   "panic=unwind build of the crates; 60 s per-case hang watchdog; abort = machinery failure; nesting <= 32",
+   "panic=unwind build of the crates; 60 s per-case hang watchdog; an abort (stack overflow etc.) is pinned to its case by re-running the journalled windows in child processes; nesting <= 32",
    "DESIGN.md §5 C01"),
  "C04": (True, "progen+refliquid", "model_checking",
    "exhaustive enumeration of all programs up to a node bound over a reused name alphabet; each execution compared with an independent reference interpreter (model) and the caller's data deep-compared",
@@ -58,7 +58,7 @@ P = {
  "C02": (True, "enum", "exploration",
    "complete products: every registered filter (names via reflection) x input x argument vectors of arity 0..3 from the shared value pool; every loop/range/cycle/conditional/include/render/counter construct x pool values in each parameter position; generated programs x type-confused data; oracle = returns Ok/Err, no panic/hang, UTF-8 output",
    "Every (template, data) pair of the stated products is rendered under a panic guard and watchdog: the call must return Ok or Err (with a message) and the bytes written must be valid UTF-8. Exhaustive over the value pool (21 values quick, 65 thorough) at arity <= 3; the right level for a totality statement whose known defects all have witnesses inside this pool.",
-   "range widths above 10^4 excluded as the statement says; now/today excluded (clock); aborts (OOM/stack overflow) are machinery failures",
+   "range widths above 10^4 excluded as the statement says; now/today excluded (clock); aborts are pinned to their case through the supervised child (unattributable ones are machinery failures)",
    "DESIGN.md §5 C02"),
  "C13": (True, "enum", "exploration",
    "exhaustive small-scope enumeration of all strings up to length 4-5 over a 10-character alphabet (combining mark, emoji, whitespace) x argument strings x integers in [-6,8], against an independent character-based reference and algebraic laws; filter chains against stepwise application",
